@@ -30,7 +30,10 @@ fn run_case(lines: &[String], out: &mut impl Write) {
     let mut timeout: Option<Duration> = Some(Duration::ZERO);
     let fired: Rc<RefCell<Vec<i64>>> = Rc::new(RefCell::new(Vec::new()));
     let base = Instant::now();
-    let mut deadlines: Vec<(i64, Instant)> = Vec::new();
+    // every timer: (name, the deadline it is currently armed for — None once fired-and-dropped or cancelled)
+    let mut deadlines: Vec<(i64, Rc<std::cell::Cell<Option<Instant>>>)> = Vec::new();
+    // what to do with a timer between the two dispatches: (index into `deadlines`, "cancel" | "disable", token)
+    let mut between: Vec<(usize, String, calloop::RegistrationToken)> = Vec::new();
     let mut keep: Vec<Box<dyn std::any::Any>> = Vec::new();
     let mut waker: Option<u64> = None;
     let mut has_closed = false;
@@ -44,15 +47,34 @@ fn run_case(lines: &[String], out: &mut impl Write) {
                 if w[1] == "none" {
                     h.insert_source(Timer::from_duration(Duration::MAX), |_, _, _| TimeoutAction::Drop).unwrap();
                 } else {
+                    // timer MS [rearm R] [cancel|disable]: on its first expiry it re-arms itself R ms later; after the
+                    // first dispatch it is removed / disabled from outside
                     let ms: i64 = w[1].parse().unwrap();
                     let dl = if ms >= 0 { base + Duration::from_millis(ms as u64) } else { base - Duration::from_millis((-ms) as u64) };
-                    deadlines.push((ms, dl));
+                    let rearm: Option<u64> = w.iter().position(|x| *x == "rearm").map(|i| w[i + 1].parse().unwrap());
+                    let cell = Rc::new(std::cell::Cell::new(Some(dl)));
+                    deadlines.push((ms, cell.clone()));
                     let f = fired.clone();
-                    h.insert_source(Timer::from_deadline(dl), move |_, _, _| {
-                        f.borrow_mut().push(ms);
-                        TimeoutAction::Drop
-                    })
-                    .unwrap();
+                    let mut rearm_left = rearm;
+                    let tok = h
+                        .insert_source(Timer::from_deadline(dl), move |_, _, _| {
+                            f.borrow_mut().push(ms);
+                            match rearm_left.take() {
+                                Some(r) => {
+                                    let next = Instant::now() + Duration::from_millis(r);
+                                    cell.set(Some(next));
+                                    TimeoutAction::ToInstant(next)
+                                }
+                                None => {
+                                    cell.set(None);
+                                    TimeoutAction::Drop
+                                }
+                            }
+                        })
+                        .unwrap();
+                    if let Some(op) = w.iter().find(|x| **x == "cancel" || **x == "disable") {
+                        between.push((deadlines.len() - 1, op.to_string(), tok));
+                    }
                 }
             }
             "source" => match w[1] {
@@ -103,8 +125,7 @@ fn run_case(lines: &[String], out: &mut impl Write) {
         });
         let before = Instant::now();
         // the earliest deadline still armed, relative to `before`
-        let armed: Vec<&(i64, Instant)> = deadlines.iter().filter(|(ms, _)| !fired.borrow().contains(ms)).collect();
-        let due = armed.iter().map(|(_, dl)| dl.saturating_duration_since(before)).min();
+        let due = deadlines.iter().filter_map(|(_, c)| c.get()).map(|dl| dl.saturating_duration_since(before)).min();
         el.dispatch(timeout, &mut ()).unwrap();
         let elapsed = before.elapsed();
         dispatch_over.store(true, std::sync::atomic::Ordering::SeqCst);
@@ -126,6 +147,16 @@ fn run_case(lines: &[String], out: &mut impl Write) {
             ns(due)
         )
         .unwrap();
+        if i == 0 {
+            for (j, op, tok) in &between {
+                if op == "cancel" {
+                    h.remove(*tok);
+                } else {
+                    h.disable(tok).unwrap();
+                }
+                deadlines[*j].1.set(None);
+            }
+        }
     }
     drop(keep);
 }
